@@ -74,6 +74,7 @@ EXPLANATION = (
 
 CH = ["ran", "failed", "true", "false"]
 RUNAWAY_STARTS = 400
+RUNAWAY_DEPTH = 12
 MODEL_FUEL = 4000
 MAX_RUNS = 150
 MAX_VALUE_SIZE = 400
@@ -466,15 +467,29 @@ def _run_flow(case):
     orig_run = Node.run
     orig_starting = Composite.register_child_starting
 
+    depth = [0]
+    tripped = [False]
+
     def run(self, *a, **k):
         i = idx.get(id(self))
-        if i is not None:
-            fired.append(i)
-        return orig_run(self, *a, **k)
+        if i is None:
+            return orig_run(self, *a, **k)
+        # guard (sticky): inside a running composite children never run inside one another — a changed library
+        # that emits depth-first would otherwise recurse until RecursionError and unwind exponentially
+        if tripped[0] or depth[0] >= RUNAWAY_DEPTH:
+            tripped[0] = True
+            raise Runaway()
+        fired.append(i)
+        depth[0] += 1
+        try:
+            return orig_run(self, *a, **k)
+        finally:
+            depth[0] -= 1
 
     def starting(self, child):
         starts[0] += 1
-        if starts[0] > RUNAWAY_STARTS:
+        if tripped[0] or starts[0] > RUNAWAY_STARTS:
+            tripped[0] = True
             raise Runaway()
         return orig_starting(self, child)
 
